@@ -6,7 +6,7 @@ from tokutil import *  # noqa
 from protocol import from_real
 
 ID = "C03"
-LEAN_MODULE = ["SCoda.Props.C01", "SCoda.Props.C01b", "SCoda.Props.C03b", "SCoda.Props.C10", "SCoda.Props.C03c", "SCoda.Props.TokTie", "SCoda.Props.C03e"]
+LEAN_MODULE = ["SCoda.Props.C01", "SCoda.Props.C01b", "SCoda.Props.C03b", "SCoda.Props.C10", "SCoda.Props.C03c", "SCoda.Props.TokTie", "SCoda.Props.C03e", "SCoda.Props.C03f"]
 LEVEL = "proof"
 CLAUSES = [
     ("two consecutive calls threading the state emit (notes and bar ends) exactly what one call on the joined events emits; "
@@ -33,11 +33,13 @@ CLAUSES = [
      ["SCoda.TokTie.tokenise_eq", "SCoda.TokTie.tokenise_eq'", "SCoda.TokTie.tokenise_fresh", "SCoda.TokTie.tokenise_fresh'", "SCoda.TokTie.tokenise_none", "SCoda.TokTie.stOfDict_nil", "SCoda.TokTie.tokenise_wrong_length", "SCoda.TokTie.tokenise_zero_denominator"]),
     ("glue to the real bars (audit A1 (ii)): for bars returned by sequences_split_bars, what the tokeniser extracts from any run [lo,hi) of them (Bar.to_sequence per track, set_channel, merge, interleaved pairings), cut at the cumulative bar lengths, is a well-formed whole-bar chunk (BarsOk after any running bar length: onsets in time order inside their bar, signatures only on bar lines and equal to the bar's own, every change of bar length announced by a signature event) with one bar per real bar carrying that bar's signature, and laid end to end it is exactly the extracted event list — provided the meta track's signatures are positive (input-level SigsPos) and every bar sequence of the run is a good track on its own (on its track's channel well-formed, no zero-length note; decidable, about the bars); for one-bar runs this is the full glue statement. The unrestricted statement (C03c.extract_wholebars_statement) is refuted: a zero-length note in one bar swallows a later note of the same pitch when the bars are merged in one run but not bar by bar (replayed on the implementation: same output; known finding D18/D18b). NOT proved: for runs of >= 2 bars, that the cut bars have bar by bar the same note events (up to order) as the one-bar runs (SameNotes; fuzzed, 0 failures in 17 000 runs)",
      ["SCoda.C03e.extract_wholebars_statement_false", "SCoda.C03e.d18_facts", "SCoda.C03e.extract_run", "SCoda.C03e.extract_wholebars_bars", "SCoda.C03e.extract_wholebars_partial", "SCoda.C03e.extract_wholebars_onebar", "SCoda.C03e.bars_pos"]),
+    ("glue to the real bars, input-level hypotheses only (closes audit A1 (ii)): for tracks that are legal relative views, well-formed, free of zero-length notes and on one channel each, with positive signatures on the meta track, every bar sequence sequences_split_bars returns is a good track on its own, and what the tokeniser extracts from ANY run [lo,hi) of the bars (Bar.to_sequence per track, set_channel, merge, interleaved pairings) is a well-formed whole-bar chunk after any running bar length, one bar per real bar with that bar's signature, which bar by bar has the same lengths and - up to the order of simultaneous events - the same note events as the one-bar runs: exactly the presentation chunked_vs_single is stated for. Hypotheses tested: zero-length notes refute the statement (kernel-checked, same output on the implementation: known finding D18/D18b); a non-positive or too short signature (0/4, 1/128 at ppqn 24) on a silent piece yields a zero-length bar (kernel-checked, same on the implementation); 0 < ppqn follows from the signature condition; one channel per track is a need of the proof, no counter-example known",
+     ["SCoda.C03f.bars_trackGood", "SCoda.C03f.extract_wholebars_input", "SCoda.C03f.extract_wholebars_full", "SCoda.C03f.extract_wholebars_nozero", "SCoda.C03f.nozero_needs_sigsPos", "SCoda.C03f.sigsPos_ppqn", "SCoda.C03e.extract_wholebars_statement_false"]),
 ]
 RULE = ("valid pieces (1-3 tracks, 2-6 bars, signature changes, empty bars) split into bars by sequences_split_bars, regrouped "
         "by random partitions (thorough: all 2^(bars-1) partitions up to 6 bars) x sampled configurations; "
         "non-trivial = at least 2 chunks and at least 2 notes")
-ASSUMPTIONS = ["NOT proved: for runs of >= 2 real bars, that the cut bars have bar by bar the same note events (up to order) as the one-bar runs (SameNotes of `C03c.extract_wholebars_statement`, which as stated is refuted by a zero-length note: C03e.extract_wholebars_statement_false; fuzzed on the implementation, 0 failures in 17 000 runs); and that bar sequences built from tracks that are well-formed, free of zero-length notes and on one channel satisfy the bar-level TrackGood hypothesis of C03e.extract_wholebars_partial. Proved (C03e): the BarsOk chunk shape, the signatures, the exact laid-out event list for every run, and the full statement for one-bar runs",
+ASSUMPTIONS = ["the glue from real bars to whole-bar chunks (C03f.extract_wholebars_nozero) assumes tracks on one channel each — a need of the proof only: mixed-channel tracks were replayed on the implementation and evaluated in the model without a failure",
                "models: SCoda.tokeniseCore with explicit carried state, SCoda.splitBars, SCoda.barsToSeq; every call of every "
                "partition is compared separately (its state in, tokens and state out)"]
 
